@@ -351,65 +351,30 @@ def iterLoop (c : Codec V) (d : Bits) : Nat → Nat → List (Except Err V)
 def iter (c : Codec V) (d : Bits) : Except Err (List V) :=
   (iterLoop c d (len c d) 0).mapM id
 
-/-- `zip(range(start, stop, step), value)` when the assigned value is the Array itself (array_.py:236-237): the
-    generator of `__iter__` reads item `k` from the *current* data just before the `k`-th overwrite. -/
-def overwriteSelfLoop (c : Codec V) : List (Int × Nat) → Bits → Step Unit
-  | [], d => ⟨d, .ok ()⟩
-  | (s, k) :: rest, d =>
-    match readAt c d (c.w * k) with
-    | .error e => ⟨d, .error e⟩
-    | .ok v =>
-      match createElement c v with
-      | .error e => ⟨d, .error e⟩
-      | .ok b =>
-        match bOverwrite d b (s * c.w) with
-        | .error e => ⟨d, .error e⟩
-        | .ok d' => overwriteSelfLoop c rest d'
-
-/-- `a[start:stop:step] = a` (array_.py:221-247 with `value is self`).  Step 1: all elements are read and built before
-    the splice.  Extended slice: `len(value)` is `len(self)`, and the values are read lazily while the loop overwrites. -/
+/-- `a[start:stop:step] = a` (array_.py:221-249 with `value is self`).  Step 1: `for x in value` reads and builds all
+    elements before the splice.  Extended slice: `value = list(value)` takes a snapshot of the items first
+    (`not isinstance(value, Sized) or value is self`), then the `overwrite` loop runs on that list. -/
 def setSliceSelf (c : Codec V) (d : Bits) (start stop step : Option Int) : Step Unit :=
   let st := step.getD 1
   if st = 0 then ⟨d, .error .value⟩ else
-  let r := Py.sliceIndices start stop st (len c d)
-  if st = 1 then
-    match iter c d with
-    | .error e => ⟨d, .error e⟩
-    | .ok vals => setSlice c d start stop step vals
-  else
-    if len c d = Py.rangeLen r.1 r.2.1 st then
-      overwriteSelfLoop c ((Py.rangeList r.1 r.2.1 st).zip (List.range (len c d))) d
-    else ⟨d, .error .value⟩
-
-/-- Region of the known finding `setslice-self-extended`: an extended slice (step ≠ 1) that covers the whole Array of at
-    least two items, assigned from the Array itself (`a[::-1] = a`): the values are read while they are being overwritten. -/
-def setslice_self_extended (c : Codec V) (d : Bits) (start stop step : Option Int) : Bool :=
-  let st := step.getD 1
-  let r := Py.sliceIndices start stop st (len c d)
-  st != 0 && st != 1 && decide (2 ≤ len c d) && (len c d == Py.rangeLen r.1 r.2.1 st)
+  match iter c d with
+  | .error e => ⟨d, .error e⟩
+  | .ok vals => setSlice c d start stop step vals
 
 /-- What `count` needs from Python values: `math.isnan(value)` (TypeError for str/bytes/Bits) and `==`. -/
 structure ValOps (V : Type) where
   isnan : V → Except Err Bool
   eq : V → V → Bool
 
-/-- `count(value)` (array_.py:348-364): a value `math.isnan` cannot take (str, bytes, Bits) is not NaN; for a NaN
-    value `sum(math.isnan(i) for i in self)` — which itself raises TypeError on a str / bytes / Bits item. -/
+/-- `count(value)` (array_.py:350-368): a value `math.isnan` cannot take (str, bytes, Bits) is not NaN; for a NaN
+    value `sum(isinstance(i, float) and math.isnan(i) for i in self)` — an item that is not a number is never NaN. -/
 def count (c : Codec V) (vo : ValOps V) (d : Bits) (value : V) : Except Err Nat :=
   let isNan : Bool := match vo.isnan value with | .ok b => b | .error _ => false
   match iter c d with
   | .error e => .error e
   | .ok l =>
-    if isNan then
-      match l.mapM vo.isnan with
-      | .error e => .error e
-      | .ok bs => .ok (bs.countP id)
+    if isNan then .ok (l.countP fun i => match vo.isnan i with | .ok b => b | .error _ => false)
     else .ok (l.countP fun i => vo.eq i value)
-
-/-- Region of the known finding `count-nan-nonnumeric`: `count(float('nan'))` on an Array whose items are not numbers
-    (`math.isnan` of an item raises) — the list model says 0. -/
-def count_nan_nonnumeric (vo : ValOps V) (l : List V) : Bool :=
-  l.any fun i => match vo.isnan i with | .error _ => true | .ok _ => false
 
 /-- `equals(other_Array)` (array_.py:450-457). -/
 def equals (c : Codec V) (d : Bits) (c2 : Codec V) (d2 : Bits) : Bool :=
